@@ -23,6 +23,7 @@ type c10Scenario struct {
 	Policy  bool       `json:"push_policy,omitempty"`      // a push policy is installed (Push takes the policy path)
 	Reject  bool       `json:"policy_rejects_b,omitempty"` // ... and it rejects the second value of every two-value batch
 	Kind    string     `json:"kind,omitempty"`
+	Idx     bool       `json:"index_options,omitempty"` // negative and forward indices are switched on
 }
 
 func (sc c10Scenario) String() string {
@@ -33,6 +34,9 @@ func (sc c10Scenario) String() string {
 	pol := ""
 	if sc.Policy {
 		pol = " push-policy"
+	}
+	if sc.Idx {
+		pol += " index-options"
 	}
 	return fmt.Sprintf("%s len=%d fifo=%v cap=%d%s {%s}", sc.Kind, sc.InitLen, sc.FIFO, sc.Cap, pol, strings.Join(p, " || "))
 }
@@ -62,8 +66,15 @@ func c10Op(name, tok string) (run func(s stackage.Stack) string, model func(m *l
 	case "Insert0", "Insert1", "InsertEnd":
 		at := map[string]int{"Insert0": 0, "Insert1": 1, "InsertEnd": 99}[name]
 		return func(s stackage.Stack) string { return fmt.Sprint(s.Insert(a, at)) }, func(m *listModel) string { return fmt.Sprint(m.insert(a, at)) }
-	case "Remove0", "Remove1":
-		at := map[string]int{"Remove0": 0, "Remove1": 1}[name]
+	case "Push12": // one call, twelve values: still one atomic operation
+		vals := make([]any, 12)
+		for i := range vals {
+			vals[i] = fmt.Sprintf("%s%c", tok, 'a'+i)
+		}
+		return func(s stackage.Stack) string { s.Push(vals...); return "" }, func(m *listModel) string { m.push(vals...); return "" }
+	case "Remove0", "Remove1", "RemoveLast", "RemoveLastButOne", "RemoveBeyond":
+		// the last three address relative to the length at the time the call takes effect (index options on)
+		at := map[string]int{"Remove0": 0, "Remove1": 1, "RemoveLast": -1, "RemoveLastButOne": -2, "RemoveBeyond": 99}[name]
 		return func(s stackage.Stack) string { return pr(s.Remove(at)) }, func(m *listModel) string { return pr(m.remove(at)) }
 	case "Replace0":
 		return func(s stackage.Stack) string { return fmt.Sprint(s.Replace(a, 0)) }, func(m *listModel) string { return fmt.Sprint(m.replace(a, 0)) }
@@ -101,6 +112,9 @@ func (sc c10Scenario) mk() stackage.Stack {
 	}
 	if sc.FIFO {
 		s.SetFIFO(true)
+	}
+	if sc.Idx {
+		s.SetNegativeIndices(true).SetForwardIndices(true)
 	}
 	s.Push(sc.initial()...)
 	s.SetMutex()
@@ -176,7 +190,7 @@ func (sc c10Scenario) sequentialOutcomes() map[string]bool {
 			out[outcomeString(results, showList(m.items))] = true
 		}
 	}
-	m := &listModel{capk: sc.Cap, fifo: sc.FIFO, rejectB: sc.Policy && sc.Reject}
+	m := &listModel{capk: sc.Cap, fifo: sc.FIFO, rejectB: sc.Policy && sc.Reject, neg: sc.Idx, fwd: sc.Idx}
 	m.items = sc.initial()
 	rec(m, make([][]string, len(ths)))
 	return out
@@ -312,6 +326,31 @@ func c10Scenarios(c *Ctx) (out []c10Scenario, bounds []int) {
 		for _, b := range ops[:8] {
 			out = append(out, c10Scenario{InitLen: cf[0], FIFO: cf[1] == 1, Cap: cf[2], Progs: [][]string{{"SetMutex", b}, {"Push1"}, {"Pop"}}})
 			bounds = append(bounds, 2)
+		}
+	}
+	// index options on: removals addressed from the end against every mutator (the position must be
+	// resolved under the lock), and a twelve-value Push against every mutator (one call, one operation)
+	for _, cf := range cfgs(3) {
+		if cf[0] == 0 {
+			continue
+		}
+		for _, a := range []string{"RemoveLast", "RemoveLastButOne", "RemoveBeyond"} {
+			for _, b := range ops[:10] {
+				out = append(out, c10Scenario{InitLen: cf[0], FIFO: cf[1] == 1, Cap: cf[2], Progs: [][]string{{a}, {b}}, Idx: true})
+				bounds = append(bounds, -1)
+			}
+			out = append(out, c10Scenario{InitLen: cf[0], FIFO: cf[1] == 1, Cap: cf[2], Progs: [][]string{{a}, {"Pop"}, {"Push1"}}, Idx: true})
+			bounds = append(bounds, 2)
+		}
+	}
+	for _, cf := range [][3]int{{0, 0, 0}, {1, 1, 0}, {2, 0, 20}, {1, 0, 8}} {
+		for _, pol := range []bool{false, true} {
+			for _, b := range ops[:10] {
+				out = append(out, c10Scenario{InitLen: cf[0], FIFO: cf[1] == 1, Cap: cf[2], Progs: [][]string{{"Push12"}, {b}}, Policy: pol})
+				bounds = append(bounds, -1)
+			}
+			out = append(out, c10Scenario{InitLen: cf[0], FIFO: cf[1] == 1, Cap: cf[2], Progs: [][]string{{"Push12"}, {"Push12"}}, Policy: pol})
+			bounds = append(bounds, -1)
 		}
 	}
 	if c.Quick() {
